@@ -888,3 +888,189 @@ Section Inv.
     - apply HG in H. rewrite next_logc in H. apply Hgen; auto.
   Qed.
 End Inv.
+
+(* ====================================================================== Part 4: identity, totality, theorems *)
+Section Same.
+  Variables (ct : ctable) (strict : bool) (ms : methods).
+  Notation V := (visit ct strict ms).
+  Notation chd := (changed ct strict ms).
+  Notation rl := (rule ct strict ms).
+
+  Definition Same (x : node) (s s' : vst) (r : result) : Prop :=
+    next s' = next s /\ exists n', r = RNode n' /\ addr n' = addr x.
+
+  Lemma seq_same v l :
+    (forall x, In x l -> chd x = false) ->
+    (forall x, In x l -> forall s s' r, v x s = Some (s', r) -> Same x s s' r) ->
+    forall s s' o, seq_visit v l s = Some (s', o) ->
+    next s' = next s /\ exists rs, o = Some rs /\ lmarked l rs = false.
+  Proof.
+    induction l as [|x l IH]; intros Hc Hv s s' o H; simpl in H.
+    - injection H as <- <-. split; auto. exists []. auto.
+    - destruct (v x s) as [[s1 r1]|] eqn:Ev; [|discriminate]. cbn [fst snd] in H.
+      destruct (Hv x (or_introl eq_refl) _ _ _ Ev) as (E1 & n' & -> & Ea).
+      destruct (seq_visit v l s1) as [[s2 o2]|] eqn:E2; [|discriminate]. cbn [fst snd] in H. injection H as <- <-.
+      destruct (IH (fun y Hy => Hc y (or_intror Hy)) (fun y Hy => Hv y (or_intror Hy)) _ _ _ E2) as (E3 & rs & -> & Em).
+      split; [congruence|]. exists (RNode n' :: rs). split; auto.
+      unfold lmarked in *. simpl. rewrite Ea, Nat.eqb_refl, Em. reflexivity.
+  Qed.
+  Lemma fields_same v ks :
+    (forall k x, In k ks -> In x (snd (snd k)) -> chd x = false) ->
+    (forall k x, In k ks -> In x (snd (snd k)) -> forall s s' r, v x s = Some (s', r) -> Same x s s' r) ->
+    forall s s' o, fields_visit v ks s = Some (s', o) ->
+    next s' = next s /\ exists rss, o = Some rss /\ any_marked ks rss = false.
+  Proof.
+    induction ks as [|k ks IH]; intros Hc Hv s s' o H; simpl in H.
+    - injection H as <- <-. split; auto. exists []. auto.
+    - destruct (seq_visit v (snd (snd k)) s) as [[s1 o1]|] eqn:E1; [|discriminate]. cbn [fst snd] in H.
+      destruct (seq_same v (snd (snd k)) (fun x Hx => Hc k x (or_introl eq_refl) Hx)
+                         (fun x Hx => Hv k x (or_introl eq_refl) Hx) _ _ _ E1) as (En1 & rs & -> & Em1).
+      destruct (fields_visit v ks s1) as [[s2 o2]|] eqn:E2; [|discriminate]. cbn [fst snd] in H. injection H as <- <-.
+      destruct (IH (fun k' x Hk Hx => Hc k' x (or_intror Hk) Hx) (fun k' x Hk Hx => Hv k' x (or_intror Hk) Hx) _ _ _ E2)
+        as (En2 & rss & -> & Em2).
+      split; [congruence|]. exists (rs :: rss). split; auto.
+      rewrite any_marked_cons. unfold fmarked. rewrite Em1, Em2. reflexivity.
+  Qed.
+
+  Lemma existsb_false_in {A} (p : A -> bool) l x : existsb p l = false -> In x l -> p x = false.
+  Proof.
+    intros H Hx. destruct (p x) eqn:E; auto.
+    assert (existsb p l = true) by (apply existsb_exists; eauto). congruence.
+  Qed.
+
+  Lemma changed_eq' n :
+    chd n = match rl (cls n) with
+            | None | Some AGeneric => existsb (fun k => existsb chd (snd (snd k))) (nkids n)
+            | Some AKeep => false
+            | Some (AReplaceBy t) => negb (Nat.eqb (addr t) (addr n))
+            | Some _ => true
+            end.
+  Proof. destruct n; reflexivity. Qed.
+
+  Lemma visit_same k : forall n s s' r,
+    wf_tree ct n = true -> chd n = false -> V k n s = Some (s', r) -> Same n s s' r.
+  Proof.
+    induction k as [|k IH]; intros n s s' r Hwf Hch H; [discriminate|].
+    destruct (wf_tree_root ct n Hwf) as [Hroot Hkids].
+    rewrite changed_eq' in Hch.
+    assert (HG : forall d s1 r1, existsb (fun k => existsb chd (snd (snd k))) (nkids n) = false ->
+                 gv_tr (V k) n (logc s (addr n) d) = Some (s1, r1) -> Same n s s1 r1).
+    { intros d s1 r1 Hk Hg. unfold gv_tr in Hg.
+      destruct (fields_visit (V k) (nkids n) (logc s (addr n) d)) as [[s2 o]|] eqn:Ef; [|discriminate].
+      cbn [fst snd] in Hg.
+      destruct (fields_same (V k) (nkids n)) with (s := logc s (addr n) d) (s' := s2) (o := o) as (En & rss & -> & Em); auto.
+      - intros k0 x Hk0 Hx. eapply existsb_false_in; [|exact Hx].
+        apply (existsb_false_in (fun k => existsb chd (snd (snd k))) _ k0 Hk Hk0).
+      - intros k0 x Hk0 Hx s3 s4 r4 Hv. apply IH; auto. + eapply Hkids; eauto.
+        + eapply existsb_false_in; [|exact Hx]. apply (existsb_false_in (fun k => existsb chd (snd (snd k))) _ k0 Hk Hk0).
+      - rewrite Em in Hg. injection Hg as <- <-. split; [exact En|]. exists n. auto. }
+    cbn [visit] in H. rewrite !(generic_visit_tr ct (V k) n _ Hroot) in H.
+    set (d := dispatch ct strict (has_method ms) (cls n)) in *.
+    assert (Hrl : rl (cls n) = match d with Some m => assoc m ms | None => None end) by reflexivity.
+    destruct d as [m|].
+    - destruct (assoc m ms) as [act|] eqn:Ea; rewrite Hrl in Hch.
+      + destruct act as [| |f v|f v|t|t| |]; try discriminate.
+        * injection H as <- <-. split; auto. exists n. auto.
+        * eapply HG; eauto.
+        * injection H as <- <-. split; auto. exists t. split; auto.
+          apply negb_false_iff, Nat.eqb_eq in Hch. exact Hch.
+      + eapply HG; eauto.
+    - rewrite Hrl in Hch. eapply HG; eauto.
+  Qed.
+
+  (* ---- enough fuel ---- *)
+  Lemma depth_kid a c o ps ks k x : In k ks -> In x (snd (snd k)) -> depth x < depth (Node a c o ps ks).
+  Proof.
+    intros Hk Hx. simpl.
+    assert (H1 : depth x <= list_max (map depth (snd (snd k)))).
+    { pose proof (proj1 (list_max_le (map depth (snd (snd k))) _) (le_n _)) as F.
+      rewrite Forall_forall in F. apply F. apply in_map. exact Hx. }
+    assert (H2 : list_max (map depth (snd (snd k))) <= list_max (map (fun k => list_max (map depth (snd (snd k)))) ks)).
+    { pose proof (proj1 (list_max_le (map (fun k => list_max (map depth (snd (snd k)))) ks) _) (le_n _)) as F.
+      rewrite Forall_forall in F. apply F. apply (in_map (fun k => list_max (map depth (snd (snd k))))). exact Hk. }
+    lia.
+  Qed.
+  Lemma seq_total v l : (forall x, In x l -> forall s, exists s' r, v x s = Some (s', r)) ->
+    forall s, exists s' o, seq_visit v l s = Some (s', o).
+  Proof.
+    induction l as [|x l IH]; intros Hv s; simpl; eauto.
+    destruct (Hv x (or_introl eq_refl) s) as (s1 & r1 & ->). cbn [fst snd].
+    destruct (IH (fun y Hy => Hv y (or_intror Hy)) s1) as (s2 & o2 & ->).
+    destruct r1; cbn [fst snd]; eauto.
+  Qed.
+  Lemma fields_total v ks : (forall k x, In k ks -> In x (snd (snd k)) -> forall s, exists s' r, v x s = Some (s', r)) ->
+    forall s, exists s' o, fields_visit v ks s = Some (s', o).
+  Proof.
+    induction ks as [|k ks IH]; intros Hv s; simpl; eauto.
+    destruct (seq_total v (snd (snd k)) (fun x Hx => Hv k x (or_introl eq_refl) Hx) s) as (s1 & o1 & ->). cbn [fst snd].
+    destruct (IH (fun k' x Hk Hx => Hv k' x (or_intror Hk) Hx) s1) as (s2 & o2 & ->).
+    destruct o1; cbn [fst snd]; eauto.
+  Qed.
+  Lemma visit_total k : forall n s, depth n <= k -> wf_tree ct n = true -> exists s' r, V k n s = Some (s', r).
+  Proof.
+    induction k as [|k IH]; intros n s Hd Hwf.
+    - destruct n; simpl in Hd; lia.
+    - destruct (wf_tree_root ct n Hwf) as [Hroot Hkids].
+      assert (HG : forall s0, exists s1 r1, gv_tr (V k) n s0 = Some (s1, r1)).
+      { intros s0. unfold gv_tr.
+        destruct (fields_total (V k) (nkids n)) with (s := s0) as (s1 & o & ->).
+        - intros k0 x Hk0 Hx s2. apply IH; [|eapply Hkids; eauto].
+          destruct n as [a c o ps ks]. pose proof (depth_kid a c o ps ks k0 x Hk0 Hx). lia.
+        - cbn [fst snd]. destruct o as [rss|]; eauto. destruct (any_marked (nkids n) rss); eauto. }
+      cbn [visit]. rewrite !(generic_visit_tr ct (V k) n _ Hroot).
+      destruct (dispatch ct strict (has_method ms) (cls n)) as [m|]; [|apply HG].
+      destruct (assoc m ms) as [[| |f v|f v|t|t| |]|]; eauto.
+      + destruct (set_prop ct _ n f v); eauto.
+      + destruct (HG (logc s (addr n) (Some m))) as (s1 & r1 & ->). cbn [fst snd].
+        destruct r1; eauto. destruct (set_prop ct (next s1) n0 f v); eauto.
+  Qed.
+
+  (* ---- the accept() decision for the visited node is logged first ---- *)
+  Definition extends (s s' : vst) : Prop := exists l, calls s' = l ++ calls s.
+  Lemma extends_refl s : extends s s. Proof. exists []. reflexivity. Qed.
+  Lemma extends_trans a b c : extends a b -> extends b c -> extends a c.
+  Proof. intros [l1 E1] [l2 E2]. exists (l2 ++ l1). rewrite E2, E1, app_assoc. reflexivity. Qed.
+  Lemma tc_loop_extends v edges :
+    (forall x s s' r, v x s = Some (s', r) -> extends s s') ->
+    forall s chg m s' o, tc_loop v edges s chg m = Some (s', o) -> extends s s'.
+  Proof.
+    intros Hv. induction edges as [|[[child fname] [i|]] rest IH]; intros s chg m s' o H; simpl in H.
+    - injection H as <- _. apply extends_refl.
+    - destruct (v child s) as [[s1 r1]|] eqn:Ev; [|discriminate]. cbn [fst snd] in H. apply Hv in Ev.
+      destruct r1; [apply IH in H|apply IH in H|injection H as <- _]; eauto using extends_trans.
+    - destruct (v child s) as [[s1 r1]|] eqn:Ev; [|discriminate]. cbn [fst snd] in H. apply Hv in Ev.
+      destruct r1; [apply IH in H|apply IH in H|injection H as <- _]; eauto using extends_trans.
+  Qed.
+  Lemma generic_visit_extends v n s s' r :
+    (forall x s s' r, v x s = Some (s', r) -> extends s s') -> generic_visit ct v n s = Some (s', r) -> extends s s'.
+  Proof.
+    intros Hv H. unfold generic_visit, transform_children in H.
+    destruct (tc_loop v (get_child_nodes_with_field ct n false) s [] []) as [[s1 o]|] eqn:E; [|discriminate].
+    apply (tc_loop_extends v _ Hv) in E. cbn [fst snd] in H.
+    destruct o as [[chg [|mk m]]|]; cbn [fst snd] in H.
+    - injection H as <- _. exact E.
+    - destruct (filter _ chg); injection H as <- _; auto.
+    - injection H as <- _. exact E.
+  Qed.
+  Lemma visit_logs k : forall n s s' r,
+    V k n s = Some (s', r) ->
+    exists l, calls s' = l ++ (addr n, dispatch ct strict (has_method ms) (cls n)) :: calls s.
+  Proof.
+    induction k as [|k IH]; intros n s s' r H; [discriminate|].
+    assert (Hv : forall x s s' r, V k x s = Some (s', r) -> extends s s').
+    { intros x s1 s2 r2 Hx. destruct (IH _ _ _ _ Hx) as [l El]. exists (l ++ [(addr x, dispatch ct strict (has_method ms) (cls x))]).
+      rewrite El, <- app_assoc. reflexivity. }
+    cbn [visit] in H.
+    set (d := dispatch ct strict (has_method ms) (cls n)) in *.
+    assert (HG : forall s1 r1, generic_visit ct (V k) n (logc s (addr n) d) = Some (s1, r1) ->
+                 exists l, calls s1 = l ++ (addr n, d) :: calls s).
+    { intros s1 r1 Hg. apply generic_visit_extends in Hg; auto. }
+    destruct d as [m|]; [|eapply HG; eauto].
+    destruct (assoc m ms) as [[| |f v|f v|t|t| |]|]; try (eapply HG; eauto; fail);
+      try (injection H as <- _; exists []; reflexivity).
+    - destruct (set_prop ct _ n f v); injection H as <- _; exists []; reflexivity.
+    - destruct (generic_visit ct (V k) n (logc s (addr n) (Some m))) as [[s1 r1]|] eqn:Eg; [|discriminate].
+      specialize (HG s1 r1 eq_refl). cbn [fst snd] in H. destruct r1; try (injection H as <- _; exact HG).
+      destruct (set_prop ct (next s1) n0 f v); injection H as <- _; exact HG.
+  Qed.
+End Same.
